@@ -1,13 +1,800 @@
-// Well-formed API edits (C02 vocabulary).  Included into scen::edits.
+// Well-formed API edits (the C02 vocabulary).  Included into scen::edits.
+//
+// Every edit here keeps the documented contract of the API it uses: nothing
+// that is still referenced is deleted, every index space stays consistent,
+// export names stay unique, bodies are well typed, `ref.func` only names
+// functions that are declared (exported) already.  So after any sequence of
+// them, emitting must succeed and validate.
 use super::walrus;
+use crate::prng::Rng;
 use crate::types::*;
-use walrus::Module;
+use walrus::ir::{self, BinaryOp, LoadKind, MemArg, StoreKind, UnaryOp, Value};
+use walrus::{ConstExpr, ElementItems, ElementKind, FunctionBuilder, FunctionId, InstrSeqBuilder, LocalId, Module, RefType, ValType};
 
 #[derive(Default)]
 pub struct EditState {
-    pub built: Vec<walrus::FunctionId>,
+    pub built: Vec<FunctionId>,
+    pub counter: u32,
 }
 
-pub fn apply(_m: &mut Module, _st: &mut EditState, _e: &Edit) -> (bool, String) {
-    (false, "not implemented".to_string())
+const SIGS: &[(&[ValType], &[ValType])] = &[
+    (&[], &[]),
+    (&[ValType::I32], &[ValType::I32]),
+    (&[ValType::I32, ValType::I64], &[ValType::I64]),
+    (&[ValType::F32, ValType::F64], &[ValType::F64, ValType::I32]),
+    (&[], &[ValType::I32]),
+    (&[ValType::I64], &[]),
+    (&[ValType::V128, ValType::I32], &[ValType::V128]),
+    (&[ValType::Ref(RefType::Externref)], &[ValType::Ref(RefType::Funcref)]),
+];
+
+fn nth<T>(mut it: impl Iterator<Item = T>, pick: u32, count: usize) -> Option<T> {
+    if count == 0 {
+        return None;
+    }
+    it.nth(pick as usize % count)
+}
+
+fn unique_export_name(m: &Module, st: &mut EditState, base: &str) -> String {
+    loop {
+        st.counter += 1;
+        let name = format!("{}_{}", base, st.counter);
+        if !m.exports.iter().any(|e| e.name == name) {
+            return name;
+        }
+    }
+}
+
+/// Things a generated body may refer to, snapshotted before the builder borrows.
+struct World {
+    funcs: Vec<(FunctionId, Vec<ValType>, Vec<ValType>)>,
+    exported_funcs: Vec<FunctionId>,
+    globals: Vec<(walrus::GlobalId, ValType, bool)>,
+    mems: Vec<(walrus::MemoryId, bool, bool)>, // (id, memory64, shared)
+    tables: Vec<(walrus::TableId, RefType)>,
+}
+
+fn world(m: &Module) -> World {
+    let funcs = m
+        .funcs
+        .iter()
+        .map(|f| {
+            let t = m.types.get(f.ty());
+            (f.id(), t.params().to_vec(), t.results().to_vec())
+        })
+        .collect();
+    let exported_funcs = m
+        .exports
+        .iter()
+        .filter_map(|e| match e.item {
+            walrus::ExportItem::Function(f) => Some(f),
+            _ => None,
+        })
+        .collect();
+    World {
+        funcs,
+        exported_funcs,
+        globals: m.globals.iter().map(|g| (g.id(), g.ty, g.mutable)).collect(),
+        mems: m.memories.iter().map(|x| (x.id(), x.memory64, x.shared)).collect(),
+        tables: m.tables.iter().map(|t| (t.id(), t.element_ty)).collect(),
+    }
+}
+
+struct Gen<'w> {
+    w: &'w World,
+    rng: Rng,
+    locals: Vec<(LocalId, ValType)>,
+    budget: i32,
+    /// functions named by `ref.func` in the body being built: the caller
+    /// declares them in an element segment, as the spec requires
+    refs: std::rc::Rc<std::cell::RefCell<Vec<FunctionId>>>,
+}
+
+fn declare_refs(m: &mut Module, refs: &std::rc::Rc<std::cell::RefCell<Vec<FunctionId>>>) {
+    let mut v = refs.borrow().clone();
+    v.sort_by_key(|f| f.index());
+    v.dedup();
+    if !v.is_empty() {
+        m.elements.add(ElementKind::Declared, ElementItems::Functions(v));
+    }
+}
+
+impl<'w> Gen<'w> {
+    fn konst(&mut self, s: &mut InstrSeqBuilder, t: ValType) {
+        match t {
+            ValType::I32 => {
+                s.i32_const(self.rng.u32() as i32 >> self.rng.below(32));
+            }
+            ValType::I64 => {
+                s.i64_const(self.rng.u64() as i64 >> self.rng.below(64));
+            }
+            ValType::F32 => {
+                s.f32_const(f32::from_bits(self.rng.u32()));
+            }
+            ValType::F64 => {
+                s.f64_const(f64::from_bits(self.rng.u64()));
+            }
+            ValType::V128 => {
+                s.const_(Value::V128((self.rng.u64() as u128) << 64 | self.rng.u64() as u128));
+            }
+            ValType::Ref(rt) => {
+                if rt == RefType::Funcref && !self.w.exported_funcs.is_empty() && self.rng.bool() {
+                    let f = *self.rng.pick(&self.w.exported_funcs);
+                    self.refs.borrow_mut().push(f);
+                    s.ref_func(f);
+                } else {
+                    s.ref_null(rt);
+                }
+            }
+        }
+    }
+
+    /// push exactly one value of type `t`
+    fn value(&mut self, s: &mut InstrSeqBuilder, t: ValType, depth: u32) {
+        self.budget -= 1;
+        if depth > 3 || self.budget <= 0 {
+            return self.leaf(s, t);
+        }
+        match (self.rng.below(8), t) {
+            (0..=1, _) => self.leaf(s, t),
+            (2, ValType::I32) => {
+                self.value(s, t, depth + 1);
+                self.value(s, t, depth + 1);
+                s.binop(*self.rng.pick(&[BinaryOp::I32Add, BinaryOp::I32Sub, BinaryOp::I32Mul, BinaryOp::I32And, BinaryOp::I32Xor, BinaryOp::I32LtS]));
+            }
+            (2, ValType::I64) => {
+                self.value(s, t, depth + 1);
+                self.value(s, t, depth + 1);
+                s.binop(*self.rng.pick(&[BinaryOp::I64Add, BinaryOp::I64Sub, BinaryOp::I64Or, BinaryOp::I64ShrU]));
+            }
+            (2, ValType::F32) => {
+                self.value(s, t, depth + 1);
+                self.value(s, t, depth + 1);
+                s.binop(*self.rng.pick(&[BinaryOp::F32Add, BinaryOp::F32Mul, BinaryOp::F32Min]));
+            }
+            (2, ValType::F64) => {
+                self.value(s, t, depth + 1);
+                self.value(s, t, depth + 1);
+                s.binop(*self.rng.pick(&[BinaryOp::F64Sub, BinaryOp::F64Div, BinaryOp::F64Max]));
+            }
+            (3, ValType::I32) => {
+                self.value(s, ValType::I64, depth + 1);
+                s.unop(UnaryOp::I32WrapI64);
+            }
+            (3, ValType::I64) => {
+                self.value(s, ValType::I32, depth + 1);
+                s.unop(UnaryOp::I64ExtendSI32);
+            }
+            (3, ValType::F64) => {
+                self.value(s, ValType::F32, depth + 1);
+                s.unop(UnaryOp::F64PromoteF32);
+            }
+            (4, _) => {
+                // block (result t) { value; [cond; br_if this] }
+                let mut g = Gen { w: self.w, rng: self.rng.fork("blk"), locals: self.locals.clone(), budget: self.budget / 2, refs: self.refs.clone() };
+                s.block(t, |b| {
+                    g.value(b, t, depth + 1);
+                    if g.rng.bool() {
+                        g.value(b, ValType::I32, depth + 1);
+                        let id = b.id();
+                        b.br_if(id);
+                    }
+                });
+                self.budget /= 2;
+            }
+            (5, _) => {
+                self.value(s, ValType::I32, depth + 1);
+                let mut g1 = Gen { w: self.w, rng: self.rng.fork("then"), locals: self.locals.clone(), budget: self.budget / 2, refs: self.refs.clone() };
+                let mut g2 = Gen { w: self.w, rng: self.rng.fork("else"), locals: self.locals.clone(), budget: self.budget / 2, refs: self.refs.clone() };
+                s.if_else(t, |a| g1.value(a, t, depth + 1), |b| g2.value(b, t, depth + 1));
+                self.budget /= 2;
+            }
+            (6, _) => {
+                // call something that returns exactly [t]
+                let cands: Vec<usize> = self.w.funcs.iter().enumerate().filter(|(_, f)| f.2.len() == 1 && f.2[0] == t && f.1.len() <= 3).map(|(i, _)| i).collect();
+                if cands.is_empty() {
+                    return self.leaf(s, t);
+                }
+                let f = &self.w.funcs[*self.rng.pick(&cands)];
+                for p in f.1.clone() {
+                    self.value(s, p, depth + 2);
+                }
+                s.call(f.0);
+            }
+            (7, _) => {
+                self.value(s, t, depth + 1);
+                self.value(s, t, depth + 1);
+                self.value(s, ValType::I32, depth + 1);
+                let typed = matches!(t, ValType::Ref(_));
+                s.select(if typed || self.rng.bool() { Some(t) } else { None });
+            }
+            _ => self.leaf(s, t),
+        }
+    }
+
+    fn leaf(&mut self, s: &mut InstrSeqBuilder, t: ValType) {
+        let ls: Vec<LocalId> = self.locals.iter().filter(|(_, lt)| *lt == t).map(|(l, _)| *l).collect();
+        let gs: Vec<walrus::GlobalId> = self.w.globals.iter().filter(|(_, gt, _)| *gt == t).map(|(g, _, _)| *g).collect();
+        match self.rng.below(3) {
+            0 if !ls.is_empty() => {
+                s.local_get(*self.rng.pick(&ls));
+            }
+            1 if !gs.is_empty() => {
+                s.global_get(*self.rng.pick(&gs));
+            }
+            _ => self.konst(s, t),
+        }
+    }
+
+    fn addr(&mut self, s: &mut InstrSeqBuilder, mem64: bool) {
+        if mem64 {
+            s.i64_const(self.rng.below(64) as i64);
+        } else {
+            s.i32_const(self.rng.below(64) as i32);
+        }
+    }
+
+    /// one statement, net stack effect zero
+    fn stmt(&mut self, s: &mut InstrSeqBuilder, kind: &BodyKind, depth: u32) {
+        self.budget -= 1;
+        let r = self.rng.below(10);
+        match kind {
+            BodyKind::Arith => {
+                let t = *self.rng.pick(&[ValType::I32, ValType::I64, ValType::F32, ValType::F64, ValType::V128]);
+                self.value(s, t, depth + 1);
+                s.drop();
+            }
+            BodyKind::Control if depth < 3 => match r {
+                0..=2 => {
+                    let mut g = Gen { w: self.w, rng: self.rng.fork("b"), locals: self.locals.clone(), budget: self.budget / 2, refs: self.refs.clone() };
+                    let k = kind.clone();
+                    s.block(None, |b| {
+                        g.stmt(b, &k, depth + 1);
+                        g.value(b, ValType::I32, depth + 1);
+                        let id = b.id();
+                        b.br_if(id);
+                        g.stmt(b, &k, depth + 1);
+                    });
+                }
+                3..=4 => {
+                    let mut g = Gen { w: self.w, rng: self.rng.fork("l"), locals: self.locals.clone(), budget: self.budget / 2, refs: self.refs.clone() };
+                    let k = kind.clone();
+                    s.loop_(None, |b| {
+                        g.stmt(b, &k, depth + 1);
+                        g.value(b, ValType::I32, depth + 1);
+                        let id = b.id();
+                        b.br_if(id);
+                    });
+                }
+                5..=6 => {
+                    self.value(s, ValType::I32, depth + 1);
+                    let mut g1 = Gen { w: self.w, rng: self.rng.fork("t"), locals: self.locals.clone(), budget: self.budget / 2, refs: self.refs.clone() };
+                    let mut g2 = Gen { w: self.w, rng: self.rng.fork("e"), locals: self.locals.clone(), budget: self.budget / 2, refs: self.refs.clone() };
+                    let (k1, k2) = (kind.clone(), kind.clone());
+                    s.if_else(None, |a| g1.stmt(a, &k1, depth + 1), |b| g2.stmt(b, &k2, depth + 1));
+                }
+                7 => {
+                    // br_table over two enclosing blocks
+                    let mut g = Gen { w: self.w, rng: self.rng.fork("bt"), locals: self.locals.clone(), budget: self.budget / 2, refs: self.refs.clone() };
+                    s.block(None, |outer| {
+                        let outer_id = outer.id();
+                        outer.block(None, |inner| {
+                            let inner_id = inner.id();
+                            g.value(inner, ValType::I32, depth + 2);
+                            inner.br_table(vec![inner_id, outer_id, inner_id].into_boxed_slice(), outer_id);
+                        });
+                    });
+                }
+                8 => {
+                    // unconditional branch out of a block, dead code behind it
+                    s.block(None, |b| {
+                        let id = b.id();
+                        b.br(id);
+                        b.i32_const(1).drop();
+                    });
+                }
+                _ => {
+                    self.value(s, ValType::I32, depth + 1);
+                    s.drop();
+                }
+            },
+            BodyKind::Calls => {
+                if self.w.funcs.is_empty() {
+                    s.i32_const(0).drop();
+                    return;
+                }
+                let f = self.w.funcs[self.rng.usize_below(self.w.funcs.len())].clone();
+                if f.1.len() > 4 {
+                    s.i32_const(0).drop();
+                    return;
+                }
+                for p in &f.1 {
+                    self.value(s, *p, depth + 2);
+                }
+                s.call(f.0);
+                for _ in &f.2 {
+                    s.drop();
+                }
+            }
+            BodyKind::Entities => match r {
+                0..=1 => {
+                    let gs: Vec<(walrus::GlobalId, ValType)> = self.w.globals.iter().filter(|g| g.2).map(|g| (g.0, g.1)).collect();
+                    if gs.is_empty() {
+                        s.i32_const(0).drop();
+                    } else {
+                        let (g, t) = *self.rng.pick(&gs);
+                        self.value(s, t, depth + 1);
+                        s.global_set(g);
+                    }
+                }
+                2..=4 if !self.w.mems.is_empty() => {
+                    let (mem, m64, _) = *self.rng.pick(&self.w.mems);
+                    self.addr(s, m64);
+                    match self.rng.below(3) {
+                        0 => {
+                            s.load(mem, LoadKind::I32 { atomic: false }, MemArg { align: 4, offset: self.rng.below(100) as u32 });
+                            s.drop();
+                        }
+                        1 => {
+                            s.load(mem, LoadKind::I64_8 { kind: ir::ExtendedLoad::ZeroExtend }, MemArg { align: 1, offset: 0 });
+                            s.drop();
+                        }
+                        _ => {
+                            self.value(s, ValType::F64, depth + 1);
+                            s.store(mem, StoreKind::F64, MemArg { align: 8, offset: self.rng.below(100) as u32 });
+                        }
+                    }
+                }
+                5 if !self.w.mems.is_empty() => {
+                    let (mem, _, _) = *self.rng.pick(&self.w.mems);
+                    s.memory_size(mem);
+                    s.drop();
+                }
+                6..=7 if !self.w.tables.is_empty() => {
+                    let (t, rt) = *self.rng.pick(&self.w.tables);
+                    match self.rng.below(3) {
+                        0 => {
+                            s.table_size(t);
+                            s.drop();
+                        }
+                        1 => {
+                            s.i32_const(0);
+                            s.table_get(t);
+                            s.drop();
+                        }
+                        _ => {
+                            s.i32_const(0);
+                            self.konst(s, ValType::Ref(rt));
+                            s.table_set(t);
+                        }
+                    }
+                }
+                _ => {
+                    let t = *self.rng.pick(&[ValType::I32, ValType::Ref(RefType::Externref), ValType::Ref(RefType::Funcref)]);
+                    self.value(s, t, depth + 1);
+                    s.drop();
+                }
+            },
+            _ => {
+                self.value(s, ValType::I32, depth + 1);
+                s.drop();
+            }
+        }
+    }
+
+    fn body(&mut self, s: &mut InstrSeqBuilder, kind: &BodyKind, results: &[ValType]) {
+        let n = self.rng.range(0, 4);
+        for _ in 0..n {
+            self.stmt(s, kind, 0);
+        }
+        for r in results {
+            self.budget = self.budget.max(4);
+            self.value(s, *r, 1);
+        }
+    }
+}
+
+/// Build a function body through positional insertion and dangling sequences:
+/// the result must be the same well-typed body as if it had been appended.
+fn positional_body(
+    builder: &mut FunctionBuilder,
+    rng: &mut Rng,
+    results: &[ValType],
+    w: &World,
+    locals: &[(LocalId, ValType)],
+    refs: &std::rc::Rc<std::cell::RefCell<Vec<FunctionId>>>,
+) {
+    // results first (appended), then statements spliced in FRONT of them by position
+    let mut g = Gen { w, rng: rng.fork("pos"), locals: locals.to_vec(), budget: 12, refs: refs.clone() };
+    {
+        let mut body = builder.func_body();
+        for r in results {
+            g.value(&mut body, *r, 2);
+        }
+    }
+    // a dangling sequence built first and attached later
+    let dangling = {
+        let mut d = builder.dangling_instr_seq(None);
+        d.i32_const(rng.u32() as i32).drop();
+        d.id()
+    };
+    let mut body = builder.func_body();
+    body.instr_at(0, ir::Block { seq: dangling });
+    // splice neutral things at positions 0 and 1
+    body.instr_at(0, ir::Drop {});
+    body.instr_at(0, ir::Const { value: Value::I64(rng.u64() as i64) });
+    body.block_at(1.min(body.instrs().len()), None, |b| {
+        b.i32_const(7).drop();
+    });
+    // an if/else spliced at the front: needs its condition in front of it
+    body.if_else_at(
+        0,
+        None,
+        |t| {
+            t.f32_const(1.5).drop();
+        },
+        |e| {
+            e.f64_const(2.5).drop();
+        },
+    );
+    body.instr_at(0, ir::Const { value: Value::I32(rng.below(2) as i32) });
+    body.loop_at(0, None, |l| {
+        l.i32_const(0).drop();
+    });
+}
+
+fn build_function(m: &mut Module, seed: u64, sig: u32, kind: &BodyKind) -> FunctionId {
+    let (params, results) = SIGS[sig as usize % SIGS.len()];
+    let w = world(m);
+    let mut rng = Rng::new(seed);
+    let args: Vec<LocalId> = params.iter().map(|t| m.locals.add(*t)).collect();
+    let mut locals: Vec<(LocalId, ValType)> = args.iter().cloned().zip(params.iter().cloned()).collect();
+    for _ in 0..rng.below(3) {
+        let t = *rng.pick(&[ValType::I32, ValType::I64, ValType::F64]);
+        locals.push((m.locals.add(t), t));
+    }
+    let mut builder = FunctionBuilder::new(&mut m.types, params, results);
+    if rng.bool() {
+        builder.name(format!("built_{:x}", seed & 0xffff));
+    }
+    let refs = std::rc::Rc::new(std::cell::RefCell::new(Vec::new()));
+    match kind {
+        BodyKind::Positional => positional_body(&mut builder, &mut rng, results, &w, &locals, &refs),
+        _ => {
+            let mut g = Gen { w: &w, rng: rng.fork("body"), locals: locals.clone(), budget: 30, refs: refs.clone() };
+            let mut body = builder.func_body();
+            // sometimes write to a fresh local first so that it is "used"
+            if let Some((l, t)) = locals.last().cloned() {
+                g.value(&mut body, t, 2);
+                body.local_set(l);
+            }
+            g.body(&mut body, kind, results);
+        }
+    }
+    let f = builder.finish(args, &mut m.funcs);
+    declare_refs(m, &refs);
+    f
+}
+
+struct SeqCollector {
+    seqs: Vec<(ir::InstrSeqId, usize)>,
+}
+
+impl<'i> ir::Visitor<'i> for SeqCollector {
+    fn start_instr_seq(&mut self, seq: &'i ir::InstrSeq) {
+        self.seqs.push((seq.id(), seq.len()));
+    }
+}
+
+pub fn apply(m: &mut Module, st: &mut EditState, e: &Edit) -> (bool, String) {
+    match e {
+        Edit::ExportFunc { pick, name } => {
+            let n = m.funcs.iter().count();
+            let Some(id) = nth(m.funcs.iter().map(|f| f.id()), *pick, n) else { return (false, "no function".into()) };
+            let name = unique_export_name(m, st, name);
+            m.exports.add(&name, id);
+            (true, String::new())
+        }
+        Edit::ExportGlobal { pick, name } => {
+            let n = m.globals.iter().count();
+            let Some(id) = nth(m.globals.iter().map(|f| f.id()), *pick, n) else { return (false, "no global".into()) };
+            let name = unique_export_name(m, st, name);
+            m.exports.add(&name, id);
+            (true, String::new())
+        }
+        Edit::ExportMemory { pick, name } => {
+            let n = m.memories.iter().count();
+            let Some(id) = nth(m.memories.iter().map(|f| f.id()), *pick, n) else { return (false, "no memory".into()) };
+            let name = unique_export_name(m, st, name);
+            m.exports.add(&name, id);
+            (true, String::new())
+        }
+        Edit::ExportTable { pick, name } => {
+            let n = m.tables.iter().count();
+            let Some(id) = nth(m.tables.iter().map(|f| f.id()), *pick, n) else { return (false, "no table".into()) };
+            let name = unique_export_name(m, st, name);
+            m.exports.add(&name, id);
+            (true, String::new())
+        }
+        Edit::DeleteExport { pick } => {
+            let n = m.exports.iter().count();
+            let Some(id) = nth(m.exports.iter().map(|f| f.id()), *pick, n) else { return (false, "no export".into()) };
+            m.exports.delete(id);
+            (true, String::new())
+        }
+        Edit::BuildFunc { seed, sig, kind, export, in_elem, in_global } => {
+            let f = build_function(m, *seed, *sig, kind);
+            st.built.push(f);
+            if *export {
+                let name = unique_export_name(m, st, "built");
+                m.exports.add(&name, f);
+            }
+            if *in_elem {
+                let funcref_tables: Vec<walrus::TableId> = m.tables.iter().filter(|t| t.element_ty == RefType::Funcref && !t.table64).map(|t| t.id()).collect();
+                let kind = match (seed % 3, funcref_tables.first()) {
+                    (0, Some(t)) => ElementKind::Active { table: *t, offset: ConstExpr::Value(Value::I32(0)) },
+                    (1, _) => ElementKind::Passive,
+                    _ => ElementKind::Declared,
+                };
+                let id = m.elements.add(kind, ElementItems::Functions(vec![f]));
+                if let ElementKind::Active { table, .. } = kind {
+                    // keep the parse-time back-link consistent, as a careful user of the API would
+                    m.tables.get_mut(table).elem_segments.insert(id);
+                }
+            }
+            if *in_global {
+                m.globals.add_local(ValType::Ref(RefType::Funcref), false, false, ConstExpr::RefFunc(f));
+            }
+            (true, String::new())
+        }
+        Edit::AddGlobal { ty, mutable, export } => {
+            let (t, init) = match ty % 6 {
+                0 => (ValType::I32, ConstExpr::Value(Value::I32(-5))),
+                1 => (ValType::I64, ConstExpr::Value(Value::I64(1 << 40))),
+                2 => (ValType::F32, ConstExpr::Value(Value::F32(f32::from_bits(0x7fc0_0001)))),
+                3 => (ValType::F64, ConstExpr::Value(Value::F64(-0.0))),
+                4 => (ValType::V128, ConstExpr::Value(Value::V128(0x0102_0304_0506_0708_090a_0b0c_0d0e_0f10))),
+                _ => (ValType::Ref(RefType::Externref), ConstExpr::RefNull(RefType::Externref)),
+            };
+            let g = m.globals.add_local(t, *mutable, false, init);
+            if *export {
+                let name = unique_export_name(m, st, "g");
+                m.exports.add(&name, g);
+            }
+            (true, String::new())
+        }
+        Edit::AddMemory { shared, mem64, export } => {
+            let id = m.memories.add_local(*shared, *mem64, 1, if *shared { Some(4) } else { None }, None);
+            if *export {
+                let name = unique_export_name(m, st, "mem");
+                m.exports.add(&name, id);
+            }
+            (true, String::new())
+        }
+        Edit::AddTable { externref, export } => {
+            let id = m.tables.add_local(false, 2, Some(10), if *externref { RefType::Externref } else { RefType::Funcref });
+            if *export {
+                let name = unique_export_name(m, st, "tab");
+                m.exports.add(&name, id);
+            }
+            (true, String::new())
+        }
+        Edit::AddData { passive, len, use_in_func } => {
+            let bytes: Vec<u8> = (0..*len).map(|i| i as u8).collect();
+            let mem = m.memories.iter().next().map(|x| (x.id(), x.memory64));
+            let id = match (passive, mem) {
+                (false, Some((mid, m64))) => {
+                    let off = if m64 { ConstExpr::Value(Value::I64(8)) } else { ConstExpr::Value(Value::I32(8)) };
+                    let id = m.data.add(walrus::DataKind::Active { memory: mid, offset: off }, bytes);
+                    m.memories.get_mut(mid).data_segments.insert(id);
+                    id
+                }
+                _ => m.data.add(walrus::DataKind::Passive, bytes),
+            };
+            if *use_in_func {
+                let mut b = FunctionBuilder::new(&mut m.types, &[], &[]);
+                {
+                    let mut body = b.func_body();
+                    if let Some((mid, m64)) = mem {
+                        if m64 {
+                            body.i64_const(0);
+                        } else {
+                            body.i32_const(0);
+                        }
+                        body.i32_const(0).i32_const(0).memory_init(mid, id);
+                    }
+                    body.data_drop(id);
+                }
+                let f = b.finish(vec![], &mut m.funcs);
+                let name = unique_export_name(m, st, "datauser");
+                m.exports.add(&name, f);
+            }
+            (true, String::new())
+        }
+        Edit::AddElem { kind, n } => {
+            let nf = m.funcs.iter().count();
+            let funcs: Vec<FunctionId> = (0..*n).filter_map(|k| nth(m.funcs.iter().map(|f| f.id()), k * 7 + *kind as u32, nf)).collect();
+            let funcref_table = m.tables.iter().find(|t| t.element_ty == RefType::Funcref && !t.table64).map(|t| t.id());
+            let extern_table = m.tables.iter().find(|t| t.element_ty == RefType::Externref && !t.table64).map(|t| t.id());
+            let (k, items) = match (kind % 5, funcref_table, extern_table) {
+                (0, _, _) => (ElementKind::Passive, ElementItems::Functions(funcs)),
+                (1, _, _) => (ElementKind::Declared, ElementItems::Functions(funcs)),
+                (2, Some(t), _) => (ElementKind::Active { table: t, offset: ConstExpr::Value(Value::I32(1)) }, ElementItems::Functions(funcs)),
+                (3, _, _) => (ElementKind::Passive, ElementItems::Expressions(RefType::Externref, vec![ConstExpr::RefNull(RefType::Externref); *n as usize % 4])),
+                (4, _, Some(t)) => (
+                    ElementKind::Active { table: t, offset: ConstExpr::Value(Value::I32(0)) },
+                    ElementItems::Expressions(RefType::Externref, vec![ConstExpr::RefNull(RefType::Externref); 1 + *n as usize % 3]),
+                ),
+                (2, None, _) => (
+                    ElementKind::Passive,
+                    ElementItems::Expressions(RefType::Funcref, funcs.iter().map(|f| ConstExpr::RefFunc(*f)).chain(std::iter::once(ConstExpr::RefNull(RefType::Funcref))).collect()),
+                ),
+                _ => (ElementKind::Declared, ElementItems::Functions(funcs)),
+            };
+            let id = m.elements.add(k, items);
+            if let ElementKind::Active { table, .. } = k {
+                m.tables.get_mut(table).elem_segments.insert(id);
+            }
+            (true, String::new())
+        }
+        Edit::ReplaceImported { pick, seed, kind } => {
+            let imported: Vec<FunctionId> = m.funcs.iter().filter(|f| matches!(f.kind, walrus::FunctionKind::Import(_))).map(|f| f.id()).collect();
+            if imported.is_empty() {
+                return (false, "no imported function".into());
+            }
+            let fid = imported[*pick as usize % imported.len()];
+            let w = world(m);
+            let t = m.types.get(m.funcs.get(fid).ty());
+            let (params, results) = (t.params().to_vec(), t.results().to_vec());
+            let mut rng = Rng::new(*seed);
+            let kind = kind.clone();
+            let refs = std::rc::Rc::new(std::cell::RefCell::new(Vec::new()));
+            let refs2 = refs.clone();
+            let r = m.replace_imported_func(fid, |(body, args)| {
+                let locals: Vec<(LocalId, ValType)> = args.iter().cloned().zip(params.iter().cloned()).collect();
+                let mut g = Gen { w: &w, rng: rng.fork("ri"), locals, budget: 20, refs: refs2.clone() };
+                let k = if matches!(kind, BodyKind::Positional) { BodyKind::Arith } else { kind };
+                g.body(body, &k, &results);
+            });
+            declare_refs(m, &refs);
+            (r.is_ok(), r.err().map(|e| e.to_string()).unwrap_or_default())
+        }
+        Edit::ReplaceExported { pick, seed, kind } => {
+            let exported: Vec<FunctionId> = m
+                .exports
+                .iter()
+                .filter_map(|e| match e.item {
+                    walrus::ExportItem::Function(f) => Some(f),
+                    _ => None,
+                })
+                .collect();
+            if exported.is_empty() {
+                return (false, "no exported function".into());
+            }
+            let fid = exported[*pick as usize % exported.len()];
+            let w = world(m);
+            let t = m.types.get(m.funcs.get(fid).ty());
+            let (params, results) = (t.params().to_vec(), t.results().to_vec());
+            let mut rng = Rng::new(*seed);
+            let kind = kind.clone();
+            let refs = std::rc::Rc::new(std::cell::RefCell::new(Vec::new()));
+            let refs2 = refs.clone();
+            let r = m.replace_exported_func(fid, |(body, args)| {
+                let locals: Vec<(LocalId, ValType)> = args.iter().cloned().zip(params.iter().cloned()).collect();
+                let mut g = Gen { w: &w, rng: rng.fork("re"), locals, budget: 20, refs: refs2.clone() };
+                let k = if matches!(kind, BodyKind::Positional) { BodyKind::Arith } else { kind };
+                g.body(body, &k, &results);
+            });
+            declare_refs(m, &refs);
+            (r.is_ok(), r.err().map(|e| e.to_string()).unwrap_or_default())
+        }
+        Edit::SetStart { seed } => {
+            let f = build_function(m, *seed, 0, &BodyKind::Arith);
+            st.built.push(f);
+            m.start = Some(f);
+            (true, String::new())
+        }
+        Edit::ClearStart => {
+            m.start = None;
+            (true, String::new())
+        }
+        Edit::InsertNeutral { func, seq, pos, what } => {
+            let locals: Vec<FunctionId> = m.funcs.iter_local().map(|(id, _)| id).collect();
+            if locals.is_empty() {
+                return (false, "no local function".into());
+            }
+            let fid = locals[*func as usize % locals.len()];
+            let lf = m.funcs.get(fid).kind.unwrap_local();
+            let mut c = SeqCollector { seqs: vec![] };
+            ir::dfs_in_order(&mut c, lf, lf.entry_block());
+            if c.seqs.is_empty() {
+                return (false, "no sequence".into());
+            }
+            let (sid, len) = c.seqs[*seq as usize % c.seqs.len()];
+            let at = *pos as usize % (len + 1);
+            let b = m.funcs.get_mut(fid).kind.unwrap_local_mut().builder_mut();
+            let mut s = b.instr_seq(sid);
+            match what % 4 {
+                0 => {
+                    s.instr_at(at, ir::Drop {});
+                    s.instr_at(at, ir::RefNull { ty: RefType::Externref });
+                }
+                1 => {
+                    s.instr_at(at, ir::Drop {});
+                    s.instr_at(at, ir::Const { value: Value::I32(42) });
+                }
+                2 => {
+                    s.block_at(at, None, |b| {
+                        b.i64_const(1).drop();
+                    });
+                }
+                _ => {
+                    s.instr_at(at, ir::Drop {});
+                    s.instr_at(at, ir::Binop { op: BinaryOp::F64Add });
+                    s.instr_at(at, ir::Const { value: Value::F64(2.0) });
+                    s.instr_at(at, ir::Const { value: Value::F64(1.0) });
+                }
+            }
+            (true, String::new())
+        }
+        Edit::RenameFunc { pick, name } => {
+            let n = m.funcs.iter().count();
+            let Some(id) = nth(m.funcs.iter().map(|f| f.id()), *pick, n) else { return (false, "no function".into()) };
+            m.funcs.get_mut(id).name = name.clone();
+            (true, String::new())
+        }
+        Edit::RenameModule { name } => {
+            m.name = name.clone();
+            (true, String::new())
+        }
+        Edit::RenameLocal { pick, name } => {
+            let n = m.locals.iter().count();
+            let Some(id) = nth(m.locals.iter().map(|f| f.id()), *pick, n) else { return (false, "no local".into()) };
+            m.locals.get_mut(id).name = name.clone();
+            (true, String::new())
+        }
+        Edit::RenameOther { which, pick, name } => {
+            match which % 6 {
+                0 => {
+                    let n = m.tables.iter().count();
+                    let Some(id) = nth(m.tables.iter().map(|f| f.id()), *pick, n) else { return (false, "none".into()) };
+                    m.tables.get_mut(id).name = name.clone();
+                }
+                1 => {
+                    let n = m.memories.iter().count();
+                    let Some(id) = nth(m.memories.iter().map(|f| f.id()), *pick, n) else { return (false, "none".into()) };
+                    m.memories.get_mut(id).name = name.clone();
+                }
+                2 => {
+                    let n = m.globals.iter().count();
+                    let Some(id) = nth(m.globals.iter().map(|f| f.id()), *pick, n) else { return (false, "none".into()) };
+                    m.globals.get_mut(id).name = name.clone();
+                }
+                3 => {
+                    let n = m.data.iter().count();
+                    let Some(id) = nth(m.data.iter().map(|f| f.id()), *pick, n) else { return (false, "none".into()) };
+                    m.data.get_mut(id).name = name.clone();
+                }
+                4 => {
+                    let n = m.elements.iter().count();
+                    let Some(id) = nth(m.elements.iter().map(|f| f.id()), *pick, n) else { return (false, "none".into()) };
+                    m.elements.get_mut(id).name = name.clone();
+                }
+                _ => {
+                    let n = m.types.iter().count();
+                    let Some(id) = nth(m.types.iter().map(|f| f.id()), *pick, n) else { return (false, "none".into()) };
+                    m.types.get_mut(id).name = name.clone();
+                }
+            }
+            (true, String::new())
+        }
+        Edit::Producers { field, name, version } => {
+            match field % 3 {
+                0 => m.producers.add_language(name, version),
+                1 => m.producers.add_processed_by(name, version),
+                _ => m.producers.add_sdk(name, version),
+            }
+            (true, String::new())
+        }
+    }
 }
